@@ -1304,6 +1304,9 @@ func c02RecordsAgree(c *Ctx, r *Report) {
 			if resolve(a.val) == resolve(p.val) {
 				return true
 			}
+			if sameLocalReads(resolve(a.val), resolve(p.val)) {
+				return true
+			}
 			// append(ue.Records, ue.Cdr[key]) right after ue.Cdr[key] = rec
 			if lk, ok := stripConv(a.val).(*ssa.Lookup); ok {
 				if n, ok := ueFieldOfValue(lk.X); ok && n == "Cdr" && lk.Index == p.key && instrDominates(p.ins, lk) {
@@ -1359,4 +1362,39 @@ func localStoreBefore(ld *ssa.UnOp) (ssa.Value, bool) {
 		}
 	}
 	return nil, false
+}
+
+// sameLocalReads: two reads of one local variable in one block with nothing in
+// between that could assign it (no store to it, no call that is handed its
+// address) yield the same value.
+func sameLocalReads(x, y ssa.Value) bool {
+	lx, ok1 := x.(*ssa.UnOp)
+	ly, ok2 := y.(*ssa.UnOp)
+	if !ok1 || !ok2 || lx.Op != token.MUL || ly.Op != token.MUL || lx.X != ly.X || lx.Block() != ly.Block() {
+		return false
+	}
+	a, ok := lx.X.(*ssa.Alloc)
+	if !ok {
+		return false
+	}
+	i, j := instrIndex(lx), instrIndex(ly)
+	if i > j {
+		i, j = j, i
+	}
+	b := lx.Block()
+	for k := i + 1; k < j; k++ {
+		switch ins := b.Instrs[k].(type) {
+		case *ssa.Store:
+			if ins.Addr == ssa.Value(a) {
+				return false
+			}
+		case ssa.CallInstruction:
+			for _, arg := range ins.Common().Args {
+				if arg == ssa.Value(a) {
+					return false
+				}
+			}
+		}
+	}
+	return true
 }
